@@ -558,7 +558,7 @@ Judge(pre, A, gh, c, res, post, B, O1) ==
         resmono  == IF lost = {} THEN {}
                     ELSE LET p0 == GetObj(pre.objs, c.id) p1 == GetObj(post.objs, c.id) IN
                          IF p0.k = "dict" /\ p1.k = "dict" /\ ~Has(p0.v, "Resources") /\ Has(p1.v, "Resources")
-                         THEN (IF HolderLevel(pre.objs, c.id) >= InheritBound THEN {"resources.shadow.deep"} ELSE {"resources.shadow"}) ELSE {"resmono"}
+                         THEN (IF c.fmt = "inc" THEN {"resources.shadow.incremental"} ELSE IF HolderLevel(pre.objs, c.id) >= InheritBound THEN {"resources.shadow.deep"} ELSE {"resources.shadow"}) ELSE {"resmono"}
         \* insert_image / insert_form_object choose the resource name themselves: NOTHING any page could
         \* use before may be taken away, also not an entry that already has the chosen name
         lostAt(q) == LET after == ResTriples(post.objs, q) IN {t \in ResTriples(pre.objs, q) : t \notin after}
@@ -675,21 +675,31 @@ Violations(tags) == tags \ DriftTags
 (*            hand that number out again                                                                  *)
 (*   icount   delete_pages skips a Count that is an indirect integer                                      *)
 (*   bmstale  delete_object / delete_pages leave a pending bookmark on the deleted object                 *)
+(* Two switches for the IncrementalDocument twins of the resource calls (c.fmt = "inc"), still in the code:  *)
+(*   incshadow IncrementalDocument::get_or_create_resources installs an empty own Resources dictionary on   *)
+(*             a page that inherits its Resources (the twin that the repair of `shadow` did not reach)      *)
+(*   incxo     IncrementalDocument::add_xobject fails (ObjectNotFound) when the XObject category is behind  *)
+(*             a reference (the dictionary lives in the previous revision only); an error, no clause broken *)
+(* (incnow marks a call that runs on an IncrementalDocument; set by Impl.)                                  *)
 (* DevAsIs = the code as it is.  DevSeeded = additionally all repaired defects seeded back (a negative     *)
 (* control of the declarative layer).  DevRepaired = every switch FALSE (no violation at all).            *)
 
 DevAsIs     == [asis |-> TRUE, mode |-> "asis", dup |-> FALSE, sdict |-> FALSE, trailer |-> FALSE, shadow |-> FALSE,
                 refarr |-> FALSE, shared |-> FALSE, collide |-> FALSE, boundary |-> FALSE,
-                deep |-> FALSE, setmax |-> FALSE, icount |-> FALSE, bmstale |-> FALSE]     \* repaired: 8ecb6b6 692e806 517c497 d56c356
+                deep |-> FALSE, setmax |-> FALSE, icount |-> FALSE, bmstale |-> FALSE,
+                incshadow |-> FALSE, incxo |-> TRUE, incnow |-> FALSE]     \* repaired: 8ecb6b6 692e806 517c497 d56c356 623e855 (incxo: an error path, still in the code)
 DevSeeded   == [asis |-> FALSE, mode |-> "seeded", dup |-> TRUE, sdict |-> TRUE, trailer |-> TRUE, shadow |-> TRUE,
                 refarr |-> TRUE, shared |-> TRUE, collide |-> TRUE, boundary |-> TRUE,
-                deep |-> TRUE, setmax |-> TRUE, icount |-> TRUE, bmstale |-> TRUE]
+                deep |-> TRUE, setmax |-> TRUE, icount |-> TRUE, bmstale |-> TRUE,
+                incshadow |-> TRUE, incxo |-> TRUE, incnow |-> FALSE]
 DevRepaired == [asis |-> FALSE, mode |-> "repaired", dup |-> FALSE, sdict |-> FALSE, trailer |-> FALSE, shadow |-> FALSE,
                 refarr |-> FALSE, shared |-> FALSE, collide |-> FALSE, boundary |-> FALSE,
-                deep |-> FALSE, setmax |-> FALSE, icount |-> FALSE, bmstale |-> FALSE]
+                deep |-> FALSE, setmax |-> FALSE, icount |-> FALSE, bmstale |-> FALSE,
+                incshadow |-> FALSE, incxo |-> FALSE, incnow |-> FALSE]
 FormerFindings == {"delete.array.dup", "delete.streamdict", "delete.trailer", "resources.shadow", "contents.refToArray",
                    "content.streamBoundary", "content.sharedStream", "resources.nameCollision",
-                   "resources.shadow.deep", "fresh.aboveMax", "maxid.setObject", "counts.indirect", "delete.bookmark"}
+                   "resources.shadow.deep", "fresh.aboveMax", "maxid.setObject", "counts.indirect", "delete.bookmark",
+                   "resources.shadow.incremental"}
 
 Out(d, res) == [doc |-> d, res |-> res]
 
@@ -880,7 +890,7 @@ ImplAddRes(d, p, cat, name, x, follow, dev) ==
             ELSE LET rv1 == IF Has(rd.v, cat) THEN rd.v ELSE Put(rd.v, cat, DictO(<<>>))
                      e   == rv1[cat]
                  IN IF e.k = "dict" THEN Out(put(Put(rv1, cat, DictO(Put(e.v, name, Ref(x))))), ResOk(0))
-                    ELSE IF e.k = "ref" /\ follow /\ Target(d1.objs, e).k = "dict"
+                    ELSE IF e.k = "ref" /\ follow /\ ~(dev.incnow /\ dev.incxo) /\ Target(d1.objs, e).k = "dict"
                          THEN LET t == TargetId(d1.objs, e) IN
                               Out([d1 EXCEPT !.objs = Put(@, t, DictO(Put(d1.objs[t].v, name, Ref(x))))], ResOk(0))
                          ELSE Out(put(rv1), ResErr)
@@ -993,8 +1003,10 @@ ObserveM(pre, c, post, B, dev) ==
                       hits == {m \in 1..(post.max_id + 8) : XName(m).s \in names}
                   IN IF hits = {} THEN NoName ELSE XName(CHOOSE m \in hits : \A k \in hits : m <= k)]
 
-\* dispatch; dec = page id -> the operation sequence the decoder reads from the page's current content
-Impl(d, c, dev, dec) ==
+\* dispatch; dec = page id -> the operation sequence the decoder reads from the page's current content.
+\* c.fmt = "inc": the resource call runs on an IncrementalDocument made from d (the objects it writes are merged back)
+Impl(d, c, dev0, dec) ==
+    LET dev == IF c.fmt = "inc" /\ IsResourceEdit(c) THEN [dev0 EXCEPT !.shadow = @ \/ dev0.incshadow, !.incnow = TRUE] ELSE dev0 IN
     CASE c.op = "NewObjectId"          -> ImplNewObjectId(d)
       [] c.op = "AddObject"            -> ImplAddObject(d, c.o)
       [] c.op = "Replace"              -> ImplReplace(d, c.id, c.o, dev)
